@@ -140,7 +140,7 @@ def main(argv=None):
             results.append(r)
             print(f'[{prop}] {s.name}: configs={r.configs} states={r.states} transitions={r.transitions} '
                   f'depth={r.depth_completed}/{r.depth_bound} exhaustive={r.exhaustive} rejected={r.rejected} '
-                  f'cut={r.cut} nontrivial={r.nontrivial} outcomes={r.outcomes} violations={len(r.violations)} '
+                  f'cut={r.cut} nontrivial={r.nontrivial} outcomes={r.outcomes} violations={sum(g['count'] for g in r.viol_groups.values())} '
                   f'caps={r.caps} wall={r.wall:.1f}s rejected_kinds={r.rej_kinds}', flush=True)
             groups = {}
             for v in r.violations:
@@ -149,15 +149,15 @@ def main(argv=None):
                 g.append(v)
             for key, g in groups.items():
                 g.sort(key=lambda v: (len(v['hist']), repr(v['config']), repr(v['hist']), repr(v['action'])))
-                rest = []
-                for v in g:
-                    hit = next((e for e in findings if matches(e, s.name, v['v'])), None)
-                    if hit is not None:
-                        suppressed[hit['id']] = suppressed.get(hit['id'], 0) + 1
-                    else:
-                        rest.append(v)
-                if rest:
-                    unmatched.append((s, key, rest))
+                info = r.viol_groups.get(key, dict(count=len(g), max_residual=None))
+                # the whole group (same clause, same match fields) is judged with its LARGEST residual
+                probe = dict(g[0]['v'])
+                if info['max_residual'] is not None: probe['residual'] = info['max_residual']
+                hit = next((e for e in findings if matches(e, s.name, probe)), None)
+                if hit is not None:
+                    suppressed[hit['id']] = suppressed.get(hit['id'], 0) + info['count']
+                else:
+                    unmatched.append((s, key, g, info['count']))
     except engine.HarnessError as e:
         print(str(e) if str(e).startswith('HARNESS') else f'HARNESS-ERROR {e}')
         return 2
@@ -165,7 +165,7 @@ def main(argv=None):
     # 3. report
     n_viol = 0
     lines = []
-    for s, key, g in unmatched:
+    for s, key, g, gcount in unmatched:
         v = g[0]
         # ownership of nondeterminism: the shortest trace must fail identically twice
         acts = list(v['hist']) + ([v['action']] if v['action'] is not None else [])
@@ -177,8 +177,8 @@ def main(argv=None):
             print(f'HARNESS-NONDETERMINISM: violation found by the explorer does not reproduce from its trace: {s.name} {v["config"]!r} {acts!r} {v["v"]["clause"]}')
             return 2
         path = write_replay(prop, s.name, v)
-        n_viol += len(g)
-        lines.append((path, s.name, v, len(g)))
+        n_viol += gcount
+        lines.append((path, s.name, v, gcount))
     for e in findings:
         if e['_reproduced'] is False and not suppressed.get(e['id']):
             print(f'NOTE: listed finding {e["id"]} did not reproduce on this tree (witness passes, no matching violation)')
